@@ -9,8 +9,10 @@ mirror is what the check ties to the code (string equality with `regex.Transpile
 
 Stage reached (fragment = domain of `tg`): literals, `.`, `^ $ \A \z \b \B`, `\a \f \t \n \r`, meta-character
 escapes, `\w \W \d \D \s \S \h \H \v \V` in ASCII and Unicode mode, concatenation, alternation, `? * +` (greedy and lazy),
-capturing / non-capturing / named / flag groups with scoped `i m s U x a`, extended-mode whitespace skipping.
-NOT yet in the fragment (covered by the correspondence and the reference matcher only): bracket expressions,
+capturing / non-capturing / named / flag groups with scoped `i m s U x a`, extended-mode whitespace skipping, bracket
+expressions `[…]`/`[^…]` over literals, escapes, ranges, POSIX and `\\p{…}` classes and all ten shorthands, including the
+split of `\\W \\S \\H \\V` out of positive classes into alternatives.
+NOT yet in the fragment (covered by the correspondence and the reference matcher only): empty classes `[]`/`[^]`,
 counted repetition, `\Q…\E`, numeric escapes, `\p{…}`, flag-only groups `(?i)`, extended-mode comments.
 -/
 namespace Elk.C21
